@@ -182,7 +182,100 @@ class BusyClient(threading.Thread):
             s.close()
 
 
+def run_cli_signal(case: Dict[str, Any]) -> Dict[str, Any]:
+    """The product run as a command (python -m proxy ...) and stopped the way a service manager or a terminal stops it: one of
+    the signals it installs a handler for.  Afterwards: process gone, no child left, listener gone, port and pid files gone."""
+    import signal
+    import subprocess
+    import sys
+    run_dir = env.workdir('c19', 'cli-%d-%d' % (os.getpid(), case['i']))
+    os.makedirs(run_dir, exist_ok=True)
+    pf, pidf = os.path.join(run_dir, 'port.txt'), os.path.join(run_dir, 'pid.txt')
+    sig = getattr(signal, case['signal'])
+    feat = 'cli|%s|%s' % (case['mode'], case['signal'])
+    viol: List[Dict[str, Any]] = []
+    obs: Dict[str, int] = {'cli_cases': 1}
+    inconclusive = None
+    args = [sys.executable, '-m', 'proxy', '--hostname', '127.0.0.1', '--port', '0', '--num-acceptors', '1', '--num-workers', '1', '--log-level', 'CRITICAL',
+            '--port-file', pf, '--pid-file', pidf]
+    args += {'threaded': ['--threaded'], 'local': ['--threadless', '--local-executor', '1'], 'remote': ['--threadless', '--local-executor', '0']}[case['mode']]
+    e = dict(os.environ)
+    e.update({'PYTHONPATH': env.REPO, 'PYTHONDONTWRITEBYTECODE': '1'})
+    e.pop(env.GUARD, None)
+    proc = subprocess.Popen(args, cwd=run_dir, env=e, stdout=subprocess.DEVNULL, stderr=subprocess.DEVNULL, start_new_session=True)
+    kids: List[int] = []
+    try:
+        end = time.time() + 40
+        port = None
+        while time.time() < end and proc.poll() is None:
+            try:
+                port = int(open(pf).read().split()[0])
+                break
+            except (OSError, ValueError, IndexError):
+                time.sleep(0.05)
+        if port is None:
+            inconclusive = 'cli-never-wrote-its-port-file'
+        else:
+            # the handlers are installed at the end of start-up: wait until the kernel lists the signal as caught
+            end = time.time() + 30
+            caught = False
+            while time.time() < end and proc.poll() is None:
+                try:
+                    st = open('/proc/%d/status' % proc.pid).read()
+                    mask = int([l for l in st.splitlines() if l.startswith('SigCgt:')][0].split()[1], 16)
+                    if mask & (1 << (int(sig) - 1)):
+                        caught = True
+                        break
+                except (OSError, IndexError, ValueError):
+                    pass
+                time.sleep(0.05)
+            if not caught:
+                # no handler for a signal the product documents: stopping it this way cannot be clean
+                obs['signal_not_handled'] = 1
+            ok, data = probe('127.0.0.1', port)
+            if not ok or not data.startswith(b'HTTP/1.'):
+                inconclusive = 'cli-instance-does-not-answer'
+            else:
+                kids = liverig.process_tree(proc.pid)
+                table = liverig.listening([proc.pid] + kids)
+                inode = table['tcp_inodes'].get(('127.0.0.1', port))
+                os.kill(proc.pid, sig)
+                try:
+                    proc.wait(60)
+                except subprocess.TimeoutExpired:
+                    viol.append({'key': feat + '|process-does-not-exit', 'detail': {'handled': caught}})
+                if proc.poll() is not None:
+                    time.sleep(0.3)
+                    still = [k for k in kids if liverig.alive(k)]
+                    d = {'exit_status': proc.returncode, 'handler_installed': caught, 'children_alive': still, 'port': port}
+                    if still:
+                        viol.append({'key': feat + '|child-process-remains', 'detail': d})
+                    if inode is not None and inode in liverig.listening_inodes():
+                        viol.append({'key': feat + '|endpoint-accepts-after-stop', 'detail': d})
+                    if os.path.exists(pf):
+                        viol.append({'key': feat + '|port-file-remains', 'detail': d})
+                    if os.path.exists(pidf):
+                        viol.append({'key': feat + '|pid-file-remains', 'detail': d})
+                    if not viol:
+                        obs['cli_stops_checked'] = 1
+    finally:
+        for k in kids + [proc.pid]:
+            try:
+                os.kill(k, signal.SIGKILL)
+            except OSError:
+                pass
+        try:
+            proc.wait(5)
+        except Exception:
+            pass
+        shutil.rmtree(run_dir, ignore_errors=True)
+    obs['mode:' + case['mode']] = 1
+    return {'viol': viol, 'nontrivial': True, 'inconclusive': inconclusive, 'sig': feat, 'obs': obs, 'sample': {'case': case}}
+
+
 def run_case(case: Dict[str, Any]) -> Dict[str, Any]:
+    if case.get('kind') == 'cli-signal':
+        return run_cli_signal(case)
     rng = random.Random('c19:%s:%s' % (case['seed'], case['i']))
     run_dir = env.workdir('c19', '%d-%d' % (os.getpid(), case['i']))
     viol: List[Dict[str, Any]] = []
@@ -227,8 +320,14 @@ def run_case(case: Dict[str, Any]) -> Dict[str, Any]:
                 args += ['--port-file', pf]
             if pidf:
                 args += ['--pid-file', pidf]
+            second = None
+            pf2 = os.path.join(run_dir, 'port2.txt')
+            if case.get('second_instance') and not case['unix']:
+                second = ['--hostname', '127.0.0.1', '--port', '0', '--num-acceptors', '1', '--num-workers', '1', '--log-level', 'CRITICAL',
+                          '--port-file', pf2] + {'threaded': ['--threaded'], 'local': ['--threadless', '--local-executor', '1'],
+                                                 'remote': ['--threadless', '--local-executor', '0']}[case['mode']]
             try:
-                live = liverig.Live(args, run_dir, hashseed=case['hashseed'])
+                live = liverig.Live(args, run_dir, hashseed=case['hashseed'], second=second)
                 break
             except liverig.LiveFailed as e:
                 if 'Address already in use' in str(e) and attempt < 2:
@@ -247,6 +346,29 @@ def run_case(case: Dict[str, Any]) -> Dict[str, Any]:
             dd = dict(detail)
             dd.update(d)
             viol.append({'key': '%s|%s' % (feat, kind), 'detail': dd})
+        # a second instance in the same process has its own listener, its own port, its own port file - and leaves the first alone
+        sec = rd.get('second')
+        if sec is not None:
+            sp = sec['port']
+            mine2 = ('127.0.0.1', sp)
+            if mine2 not in bound:
+                bad('second-instance-reports-a-port-it-does-not-listen-on', second=sec)
+            elif sp == P or sp in L:
+                bad('second-instance-reports-the-first-instances-port', second=sec)
+            else:
+                ok2, data2 = probe3('127.0.0.1', sp)
+                try:
+                    lines2 = [int(x) for x in open(pf2).read().split()]
+                except (OSError, ValueError):
+                    lines2 = []
+                if not ok2 or not data2.startswith(b'HTTP/1.'):
+                    bad('second-instance-endpoint-does-not-serve', second=sec, answer=data2[:60])
+                elif lines2 != [sp]:
+                    bad('second-instance-port-file-wrong', second=sec, port_file=lines2)
+                else:
+                    obs['second_instances_checked'] = 1
+                bound = set(bound) - {mine2}
+                table['tcp_inodes'].pop(mine2, None)
         cfg_ports = ([] if case['unix'] else [port]) + ports
         expected_n = len(hosts) * len(cfg_ports)
         fixed = {(h, p) for h in hosts for p in cfg_ports if p != 0}
@@ -465,6 +587,10 @@ def cases(tier: str, seed: int):
         picked = cfgs[:44]
     else:
         picked = cfgs
+    for k, (mode, sg) in enumerate([(m, sg) for sg in ('SIGINT', 'SIGTERM', 'SIGHUP', 'SIGQUIT') for m in (modes if tier != 'quick' else [modes[hash(sg) % 1]])] if tier != 'quick'
+                                   else [('local', 'SIGINT'), ('remote', 'SIGTERM'), ('threaded', 'SIGHUP'), ('local', 'SIGQUIT'), ('remote', 'SIGQUIT')]):
+        i += 1
+        yield {'seed': seed, 'i': i, 'kind': 'cli-signal', 'mode': mode, 'signal': sg}
     for k, c in enumerate(picked):
         for mode in (modes if tier != 'quick' else [modes[k % 3]]):
             for hs in ([0, 1, 2, 3] if tier != 'quick' else [k % 4]):
@@ -473,14 +599,15 @@ def cases(tier: str, seed: int):
                 d.update({'seed': seed, 'i': i, 'mode': mode, 'hashseed': hs, 'acceptors': rng.choice([1, 2]), 'workers': rng.choice([1, 2]),
                           'port_file': rng.random() < 0.8, 'pid_file': rng.random() < 0.5,
                           'restart': (i % 3 == 0) if tier == 'quick' else (hs in (1, 3)),
-                          'busy_client': (i % 2 == 0) if tier == 'quick' else (hs in (2, 3))})
+                          'busy_client': (i % 2 == 0) if tier == 'quick' else (hs in (2, 3)),
+                          'second_instance': (i % 3 == 1) if tier == 'quick' else (hs == 0)})
                 yield d
 
 
 def floors(tier: str) -> Dict[str, int]:
     return {'configs': 30, 'endpoints_probed': 60, 'shutdowns_checked': 30, 'os_assigned_configs': 5, 'multi_host_configs': 8,
             'unix_configs': 4, 'port_files_checked': 15, 'primary_identity_checked': 15, 'mode:threaded': 5, 'mode:local': 5, 'mode:remote': 5,
-            'restarts_checked': 5, 'time_wait_left_on_endpoint': 5, 'shutdowns_with_busy_client': 8}
+            'restarts_checked': 5, 'time_wait_left_on_endpoint': 5, 'shutdowns_with_busy_client': 8, 'second_instances_checked': 4, 'cli_stops_checked': 4}
 
 
 if __name__ == '__main__':
